@@ -1,6 +1,8 @@
 (* Hand-written driver around the extracted router model (router_model.ml).
    Reads one command per line on stdin, prints observations on stdout.
 
+   (the state is one extracted RouterTop.router value; each command is one rstep)
+   rmrealm <idx> | tryrm <idx>   remove a realm: its clients are told GOODBYE system_shutdown
    realm <idx> <strict> <disclose> <meta_strict> <kill> <modify> <local_authz>
          <nhist> (<hextopic> <hexmatch> <limit>)* <nrules> (<code> <hexuri|*> <sid> <act> [<hexuri>])*
    try <idx> <op...>     run one op, print its outputs, do NOT commit
@@ -132,7 +134,7 @@ let parse_op () : M.op =
   | "msg" -> let sid = next_n () in let oracle = next_n () in let m = parse_cmsg () in M.OMsg (sid, m, oracle)
   | t -> failwith ("bad op " ^ t)
 
-let parse_realm () : M.realm =
+let parse_config () : M.config =
   let strict = next_bool () in let disclose = next_bool () in let meta_strict = next_bool () in
   let kill = next_bool () in let modify = next_bool () in let local_authz = next_bool () in
   let nh = next_int () in
@@ -151,12 +153,16 @@ let parse_realm () : M.realm =
           | x -> failwith ("bad action " ^ x)) in
       { M.ar_code = code; M.ar_uri = u; M.ar_sid = sid; M.ar_act = act } :: rules (n - 1) in
   let rs = rules nr in
-  let authz = if nr < 0 then None else Some (M.table_authz rs) in
-  M.init_realm { M.c_strict = strict; M.c_disclose = disclose; M.c_meta_strict = meta_strict;
-                 M.c_meta_kill = kill; M.c_meta_modify = modify; M.c_local_authz = local_authz;
-                 M.c_hist = h; M.c_authz = (if nr = 0 then None else authz) }
+  { M.c_strict = strict; M.c_disclose = disclose; M.c_meta_strict = meta_strict;
+    M.c_meta_kill = kill; M.c_meta_modify = modify; M.c_local_authz = local_authz;
+    M.c_hist = h; M.c_authz = (if nr = 0 then None else Some (M.table_authz rs)) }
 
-let realms : (int, M.realm) Hashtbl.t = Hashtbl.create 8
+(* The whole state is one value of the extracted [router] type; every command
+   is one [rstep] (RouterTop.v).  "try" computes without committing. *)
+let state : M.router ref = ref []
+
+let rec find_realm (l : (M.n * M.realm) list) (i : M.n) : M.realm option =
+  match l with [] -> None | (k, r) :: t -> if k = i then Some r else find_realm t i
 
 let () =
   let b = Buffer.create 4096 in
@@ -166,20 +172,34 @@ let () =
        toks := List.filter (fun s -> s <> "") (Stdlib.String.split_on_char ' ' line);
        Buffer.clear b;
        (try
+          let emit (outs : (M.n * (M.n * M.rmsg)) list) =
+            List.iter (fun (_, (sid, m)) ->
+                Buffer.add_string b "out "; Buffer.add_string b (dec_of_n sid); Buffer.add_char b ' ';
+                print_value b (M.msg_value m); Buffer.add_char b '\n') outs in
           (match next () with
-           | "realm" -> let idx = next_int () in Hashtbl.replace realms idx (parse_realm ())
+           | "realm" ->
+             let idx = next_n () in
+             let cfg = parse_config () in
+             let (rt, outs) = M.rstep !state (M.RAddRealm (idx, cfg)) in
+             state := rt; emit outs
+           | ("tryrm" | "rmrealm") as cmd ->
+             let idx = next_n () in
+             let (rt, outs) = M.rstep !state (M.RRemoveRealm idx) in
+             if cmd = "rmrealm" then state := rt;
+             emit outs
            | ("try" | "do") as cmd ->
-             let idx = next_int () in
-             let r = Hashtbl.find realms idx in
+             let idx = next_n () in
              let o = parse_op () in
-             let (r', outs) = M.step r o in
-             if cmd = "do" then Hashtbl.replace realms idx r';
-             List.iter (fun (sid, m) ->
-                 Buffer.add_string b "out "; Buffer.add_string b (dec_of_n sid); Buffer.add_char b ' ';
-                 print_value b (M.msg_value m); Buffer.add_char b '\n') outs;
-             Buffer.add_string b "sizes";
-             List.iter (fun n -> Buffer.add_char b ' '; Buffer.add_string b (dec_of_n n)) (M.sizes r');
-             Buffer.add_char b '\n'
+             let rop = (match o with M.OTick ms -> M.RTick ms | _ -> M.ROp (idx, o)) in
+             let (rt, outs) = M.rstep !state rop in
+             if cmd = "do" then state := rt;
+             emit outs;
+             (match find_realm (M.rt_realms rt) idx with
+              | Some r ->
+                Buffer.add_string b "sizes";
+                List.iter (fun n -> Buffer.add_char b ' '; Buffer.add_string b (dec_of_n n)) (M.sizes r);
+                Buffer.add_char b '\n'
+              | None -> ())
            | "quit" -> raise End_of_file
            | t -> failwith ("bad command " ^ t))
         with Failure m -> Buffer.clear b; Buffer.add_string b ("error " ^ m ^ "\n")
